@@ -406,7 +406,10 @@ class SynGen:
 		if method == 'method':
 			ps.append('self')
 		elif method == 'classmethod':
-			ps.append('cls')
+			ps.append(r.choice(['cls', 'cls', 'klass']))
+		elif method == 'plain' and r.random() < 0.3:
+			# a first parameter that merely is *named* cls / self-like does not make a class method
+			ps.append(r.choice(['cls', 'this']))
 		names = r.sample(NAMES, r.choice([0, 1, 2, 3]))
 		seen_default = False
 		for n in names:
@@ -458,7 +461,7 @@ class SynGen:
 			method = 'method'
 		elif kind == 'plain':
 			# a def directly in a class body without self / cls (static-style)
-			method = None
+			method = 'plain'
 		self.f.add('def:' + (kind or ('closure' if level > 0 else 'function')))
 		ret = 'None' if kind == 'init' else self.typed()
 		head = f'def {name}({self.params(d, method)}) -> {ret}:'
